@@ -234,3 +234,40 @@ func VerifHarness_C19_Group() {
 		verifAssert("method-doc-lines-kept", len(convs[i].Methods["Convert"].Lines) == 1 && convs[i].Methods["Convert"].Lines[0] == "ignore X")
 	}
 }
+
+// VerifHarness_C19_Repeated: every goverter: line of a doc comment is a setting line, in order - also when the same
+// line occurs several times (settings may accumulate or be switched back and forth).
+func VerifHarness_C19_Repeated() {
+	fset := token.NewFileSet()
+	pkg := types.NewPackage("example.org/in", "in")
+	texts := []string{"// goverter:ignoreMissing yes", "// goverter:ignoreMissing no", "// goverter:output:raw x", "// some prose"}
+	n := 2 + nondetChoice("lines", 4)
+	var list []*ast.Comment
+	var want []string
+	list = append(list, &ast.Comment{Text: "// goverter:converter"})
+	want = append(want, "converter")
+	for i := 0; i < n; i++ {
+		t := texts[nondetChoice("line", 4)]
+		list = append(list, &ast.Comment{Text: t})
+		if t != "// some prose" {
+			want = append(want, t[len("// goverter:"):])
+		}
+	}
+	var mlist []*ast.Comment
+	var mwant []string
+	for i := 0; i < 3; i++ {
+		t := []string{"// goverter:ignore A", "// goverter:map B C", "// goverter:ignore A"}[nondetChoice("method.line", 3)]
+		mlist = append(mlist, &ast.Comment{Text: t})
+		mwant = append(mwant, t[len("// goverter:"):])
+	}
+	iface := &ast.InterfaceType{Methods: &ast.FieldList{List: []*ast.Field{{Names: []*ast.Ident{{Name: "Convert"}}, Doc: &ast.CommentGroup{List: mlist}, Type: &ast.FuncType{}}}}}
+	decl := &ast.GenDecl{Tok: token.TYPE, Doc: &ast.CommentGroup{List: list}, Specs: []ast.Spec{&ast.TypeSpec{Name: &ast.Ident{Name: "Converter"}, Type: iface}}}
+	convs, err := parseGenDecl(fset, pkg, decl)
+	verifAssert("converter-recognised", err == nil && len(convs) == 1)
+	if err != nil || len(convs) != 1 {
+		return
+	}
+	verifReach("repeated")
+	verifSame("converter-lines-all-kept-in-order", convs[0].Converter.Lines, want)
+	verifSame("method-lines-all-kept-in-order", convs[0].Methods["Convert"].Lines, mwant)
+}
